@@ -93,8 +93,76 @@ def _fault_pattern(m, name, cb):
     raise KeyError(name)
 
 
+# compositional patterns (descriptors are JSON lists so that they can live in replay files)
+_LEAF_TYPES = ['Name', 'Call', 'Constant', 'BinOp', 'FunctionDef', 'ClassDef', 'If', 'Assign', 'Attribute', 'Expr', 'arg',
+               'expr', 'stmt', 'Load', 'Add', 'keyword', 'Return', 'List', 'Compare']
+_MTYPES = [(['FunctionDef', 'AsyncFunctionDef', 'ClassDef'], 'name', ['f', 'A', 'g']), (['Name', 'Attribute', 'Subscript'], 'ctx', ['Load', 'Store']),
+           (['Name'], 'id', ['a', 'b', 'c']), (['List', 'Tuple', 'Set'], 'elts', ['...']), (['BinOp', 'AugAssign'], 'op', ['Add', 'Mult']),
+           (['Constant'], 'value', [1, 'doc']), (['FunctionDef', 'ClassDef'], None, [None])]
+
+
+def gen_pattern_desc(rng, depth=0):
+    r = rng.random()
+    if depth < 2 and r < 0.55:
+        k = rng.choice(['or', 'and', 'not', 'not', 'tag'])
+        if k == 'not':
+            return ['not', gen_pattern_desc(rng, depth + 1)]
+        if k == 'tag':
+            return ['tag', rng.choice(['t', 'u']), gen_pattern_desc(rng, depth + 1)]
+        return [k, gen_pattern_desc(rng, depth + 1), gen_pattern_desc(rng, depth + 1)]
+    k = rng.choice(['type', 'type', 'name', 'const', 'mtypes', 'mtypes', 'mtypes', 'wild', 're'])
+    if k == 'type':
+        return ['type', rng.choice(_LEAF_TYPES)]
+    if k == 'name':
+        return ['name', rng.choice(['a', 'b', 'c', 'f'])]
+    if k == 'const':
+        return ['const', rng.choice([1, 'doc', None])]
+    if k == 'mtypes':
+        types, fld, vals = rng.choice(_MTYPES)
+        return ['mtypes', types, fld, rng.choice(vals)]
+    if k == 're':
+        return ['re', rng.choice(['^[ab]', 'c$', '.'])]
+    return ['wild']
+
+
+def build_desc(d):
+    from fst import match as m
+    k = d[0]
+    if k == 'or':
+        return m.MOR(build_desc(d[1]), build_desc(d[2]))
+    if k == 'and':
+        return m.MAND(build_desc(d[1]), build_desc(d[2]))
+    if k == 'not':
+        return m.MNOT(build_desc(d[1]))
+    if k == 'tag':
+        return m.M(**{d[1]: build_desc(d[2])})
+    if k == 'type':
+        return getattr(ast, d[1])
+    if k == 'name':
+        return m.MName(id=d[1])
+    if k == 'const':
+        return m.MConstant(value=d[1])
+    if k == 're':
+        return m.MName(id=m.MRE(d[1]))
+    if k == 'wild':
+        return ...
+    if k == 'mtypes':
+        types = tuple(getattr(ast, t) for t in d[1])
+        if d[2] is None:
+            return m.MTYPES(types)
+        v = d[3]
+        if d[2] in ('ctx', 'op'):
+            v = getattr(ast, v)
+        elif v == '...':
+            v = [m.MQSTAR(e=...)]
+        return m.MTYPES(types, **{d[2]: v})
+    raise KeyError(k)
+
+
 def build_pattern(name):
     from fst import match as m
+    if isinstance(name, list):
+        return build_desc(name)
     if name == 'or_backref_list':
         return m.MList(elts=[m.MOR(m.M(first=m.MName), m.MConstant), m.MQSTAR(rest=m.MTAG('first'))])
     if name == 'or_backref_binop':
@@ -231,12 +299,14 @@ class MatchRun:
             n_gen = rng.choice([2, 2, 3, 4])
             parties = []
             for i in range(n_gen):
-                parties.append({'kind': 'search', 'tree': rng.randrange(len(programs)), 'pat': rng.choice(PATTERNS),
+                parties.append({'kind': 'search', 'tree': rng.randrange(len(programs)),
+                                'pat': rng.choice(PATTERNS) if rng.random() < 0.5 else gen_pattern_desc(rng),
                                 'nested': rng.random() < 0.8, 'on': rng.choice(['enter', 'enter', 'leave']),
                                 'back': rng.random() < 0.2})
             n_match = rng.choice([2, 4, 8])
             for i in range(n_match):
-                parties.append({'kind': 'match', 'tree': rng.randrange(len(programs)), 'pat': rng.choice(PATTERNS),
+                parties.append({'kind': 'match', 'tree': rng.randrange(len(programs)),
+                                'pat': rng.choice(PATTERNS) if rng.random() < 0.6 else gen_pattern_desc(rng),
                                 'node': rng.randrange(10 ** 6), 'on_ast': rng.random() < 0.2})
             if rng.random() < 0.6:  # fault run: aborted / re-entrant matches, cancelled searches, leak-sensitive observers
                 for j in range(len(programs)):  # make sure there is something for the fault patterns to bite on
@@ -269,7 +339,7 @@ class MatchRun:
 
         def node_of(tree, k, pat=None):
             nodes = [n for n in tree.walk(True)]
-            classes = NODE_CLASSES.get(pat)
+            classes = NODE_CLASSES.get(pat) if isinstance(pat, str) else None
             if classes:
                 nodes = [n for n in nodes if isinstance(n.a, classes)] or nodes
             return nodes[k % len(nodes)]
@@ -410,7 +480,7 @@ class MatchRun:
                                      'detail': f'{p!r}: walk+match={want!r} search={have!r}'[:1500]}
                         break
                     self.stats['filtered_walk_checks'] += 1
-        self.tuples.update(f'{p["kind"]}|{p["pat"]}' for p in parties)
+        self.tuples.update(f'{p["kind"]}|{p["pat"] if isinstance(p["pat"], str) else "desc:" + str(p["pat"][0])}' for p in parties)
         self.log = [schedule, [r[1] if r[0] == 'ok' else r for r in refs]]
         return {
             'steps': len(schedule), 'ok_steps': len(schedule), 'stats': dict(self.stats), 'tuples': sorted(self.tuples),
